@@ -278,33 +278,3 @@ fn c16_many_empty_and_garbage_first_record() {
 
 
 
-/// Two complete records (ChangeCipherSpec, then alert), every byte concrete except the alert payload: both
-/// are returned in order and nothing remains; the handshake body parsers are unreachable but stubbed (see above).
-#[kani::proof]
-#[kani::unwind(6)]
-#[kani::stub(tp::parse_tls_handshake_msg_hello_request, st1)]
-#[kani::stub(tp::parse_tls_handshake_msg_client_hello, st1)]
-#[kani::stub(tp::parse_tls_handshake_msg_server_hello, st1)]
-#[kani::stub(tp::parse_tls_handshake_msg_newsessionticket, st2)]
-#[kani::stub(tp::parse_tls_handshake_msg_hello_retry_request, st1)]
-#[kani::stub(tp::parse_tls_handshake_msg_certificate, st1)]
-#[kani::stub(tp::parse_tls_handshake_msg_serverkeyexchange, st2)]
-#[kani::stub(tp::parse_tls_handshake_msg_certificaterequest, st1)]
-#[kani::stub(tp::parse_tls_handshake_msg_serverdone, st2)]
-#[kani::stub(tp::parse_tls_handshake_msg_certificateverify, st2)]
-#[kani::stub(tp::parse_tls_handshake_msg_clientkeyexchange, st2)]
-#[kani::stub(tp::parse_tls_handshake_msg_finished, st2)]
-#[kani::stub(tp::parse_tls_handshake_msg_certificatestatus, st1)]
-#[kani::stub(tp::parse_tls_handshake_msg_key_update, st1)]
-#[kani::stub(tp::parse_tls_handshake_msg_next_protocol, st1)]
-fn c16_many_two_concrete_records() {
-    let a: [u8; 2] = kani::any();
-    let buf = [0x14, 3, 3, 0, 1, 1, 0x15, 3, 3, 0, 2, a[0], a[1]];
-    let r = ManuallyDrop::new(tp::tls_parser_many(&buf[..]));
-    vassert!(r.is_ok(), "C16.many.ok_when_first_record_parses");
-    if let Ok((rem, recs)) = &*r {
-        vassert!(recs.len() == 2 && rem.len() == 0, "C16.many.exactly_the_records_that_parse");
-        vassert!(recs[0].hdr.record_type.0 == 0x14 && recs[1].hdr.record_type.0 == 0x15 && recs[1].msg.len() == 1, "C16.many.records_in_wire_order");
-        vcover!(true, "C16.many.cover.two_records");
-    }
-}
